@@ -53,7 +53,7 @@ theorem domain_flag_correct (targets : List Bytes) (ht : ∀ t ∈ targets, ∀ 
     chunking -- and whatever follows them (the tail calls) comes after ALL line records
     (`tail_last`). -/
 theorem line_records_atomic (cfg : Cfg) (host t0host : Bytes) (strm : Nat) (readRc : Bool)
-    {sizeMeta : Nat} (hm1 : 1 ≤ sizeMeta) (hm2 : sizeMeta ≤ 800) {b0 : PBuf}
+    {sizeMeta : Nat} (hg : growthOk sizeMeta = true) {b0 : PBuf}
     (hb0 : mkFifoBuf sizeMeta = some b0) (script : List Bytes)
     (hdom : Spec.Dom05 (markerOf readRc) script.flatten = true) :
     ((runStream fifoOps cfg host t0host strm readRc b0 script).ems.map Em.bytes).take
@@ -63,7 +63,7 @@ theorem line_records_atomic (cfg : Cfg) (host t0host : Bytes) (strm : Nat) (read
         (Spec.lines script.flatten).length =
       (tailEms cfg host strm ((Spec.tail script.flatten).length + 1) (Spec.tail script.flatten) false).map
         Em.bytes := by
-  obtain ⟨h1, _⟩ := runStream_closed cfg host strm readRc t0host hm1 hm2 hb0 script hdom
+  obtain ⟨h1, _⟩ := runStream_closed cfg host strm readRc t0host hg hb0 script hdom
   rw [h1, List.map_append, List.map_map]
   have hlen : ((Spec.lines script.flatten).map
       (Em.bytes ∘ fun l => (⟨strm, labelPrefix cfg.labels cfg.keep host ++ l⟩ : Em))).length =
@@ -79,12 +79,12 @@ theorem line_records_atomic (cfg : Cfg) (host t0host : Bytes) (strm : Nat) (read
     for a fragment of 8 KiB or more) -- i.e. the specification's verdict `c06Ok` holds, for
     every stream in the domain and every chunking. -/
 theorem records_atomic_partial (cfg : Cfg) (hfix : cfg.tailSplit = false) (host t0host : Bytes) (strm : Nat)
-    (readRc : Bool) {sizeMeta : Nat} (hm1 : 1 ≤ sizeMeta) (hm2 : sizeMeta ≤ 800) {b0 : PBuf}
+    (readRc : Bool) {sizeMeta : Nat} (hg : growthOk sizeMeta = true) {b0 : PBuf}
     (hb0 : mkFifoBuf sizeMeta = some b0) (script : List Bytes)
     (hdom : Spec.Dom05 (markerOf readRc) script.flatten = true) :
     Spec.c06Ok (pfx cfg host) script.flatten
       ((runStream fifoOps cfg host t0host strm readRc b0 script).ems.map Em.bytes) = true := by
-  obtain ⟨h1, h2⟩ := line_records_atomic cfg host t0host strm readRc hm1 hm2 hb0 script hdom
+  obtain ⟨h1, h2⟩ := line_records_atomic cfg host t0host strm readRc hg hb0 script hdom
   have h0 : ∀ b ∈ Spec.tail script.flatten, b ≠ 0 := fun b hb => dom_noNul hdom b (mem_of_mem_rest hb)
   have ht := tailEms_ok cfg host strm hfix _ (Spec.tail script.flatten) (Nat.lt_succ_self _) h0
   unfold Spec.c06Ok
@@ -96,14 +96,13 @@ theorem records_atomic_partial (cfg : Cfg) (hfix : cfg.tailSplit = false) (host 
     followed by the fragment's bytes by further calls -- the specification's `tailSplitForm` --
     and hence is not a sequence of whole records (`c06Ok` fails). -/
 theorem tail_split_is_the_defect (cfg : Cfg) (hsplit : cfg.tailSplit = true) (hlab : cfg.labels = true)
-    (host t0host : Bytes) (strm : Nat) (readRc : Bool) {sizeMeta : Nat} (hm1 : 1 ≤ sizeMeta)
-    (hm2 : sizeMeta ≤ 800) {b0 : PBuf} (hb0 : mkFifoBuf sizeMeta = some b0) (script : List Bytes)
+    (host t0host : Bytes) (strm : Nat) (readRc : Bool) {sizeMeta : Nat} (hg : growthOk sizeMeta = true) {b0 : PBuf} (hb0 : mkFifoBuf sizeMeta = some b0) (script : List Bytes)
     (hdom : Spec.Dom05 (markerOf readRc) script.flatten = true) (htail : Spec.tail script.flatten ≠ []) :
     Spec.tailSplitForm (pfx cfg host) script.flatten
       ((runStream fifoOps cfg host t0host strm readRc b0 script).ems.map Em.bytes) = true ∧
     Spec.c06Ok (pfx cfg host) script.flatten
       ((runStream fifoOps cfg host t0host strm readRc b0 script).ems.map Em.bytes) = false := by
-  obtain ⟨h1, h2⟩ := line_records_atomic cfg host t0host strm readRc hm1 hm2 hb0 script hdom
+  obtain ⟨h1, h2⟩ := line_records_atomic cfg host t0host strm readRc hg hb0 script hdom
   have h0 : ∀ b ∈ Spec.tail script.flatten, b ≠ 0 := fun b hb => dom_noNul hdom b (mem_of_mem_rest hb)
   obtain ⟨d, rest, he, hok⟩ :=
     tailEms_split cfg host strm hsplit hlab _ (Spec.tail script.flatten) (Nat.lt_succ_self _) h0 htail
@@ -132,13 +131,13 @@ theorem tail_split_witness : ∀ b0, mkFifoBuf 1 = some b0 →
     line survives `_do_output`, so that call never emits -- the whole run is independent of
     which host's thd_t it is given. -/
 theorem flush_lines_in_flush_output_noop (cfg : Cfg) (host t0host t0host' : Bytes) (strm : Nat) (readRc : Bool)
-    {sizeMeta : Nat} (hm1 : 1 ≤ sizeMeta) (hm2 : sizeMeta ≤ 800) {b0 : PBuf}
+    {sizeMeta : Nat} (hg : growthOk sizeMeta = true) {b0 : PBuf}
     (hb0 : mkFifoBuf sizeMeta = some b0) (script : List Bytes)
     (hdom : Spec.Dom05 (markerOf readRc) script.flatten = true) :
     (runStream fifoOps cfg host t0host strm readRc b0 script).ems =
       (runStream fifoOps cfg host t0host' strm readRc b0 script).ems := by
-  obtain ⟨h1, _⟩ := runStream_closed cfg host strm readRc t0host hm1 hm2 hb0 script hdom
-  obtain ⟨h2, _⟩ := runStream_closed cfg host strm readRc t0host' hm1 hm2 hb0 script hdom
+  obtain ⟨h1, _⟩ := runStream_closed cfg host strm readRc t0host hg hb0 script hdom
+  obtain ⟨h2, _⟩ := runStream_closed cfg host strm readRc t0host' hg hb0 script hdom
   rw [h1, h2]
 
 /-- everything together for one host of a target list, in the property's own terms: with the
@@ -146,14 +145,14 @@ theorem flush_lines_in_flush_output_noop (cfg : Cfg) (host t0host t0host' : Byte
     the property's label for that host -/
 theorem records_carry_own_label (labels optK : Bool) (targets : List Bytes) (host t0host : Bytes)
     (hn : NameOk host) (ht : ∀ t ∈ targets, ∀ b ∈ t, b ≠ 0) (strm : Nat) (readRc : Bool)
-    {sizeMeta : Nat} (hm1 : 1 ≤ sizeMeta) (hm2 : sizeMeta ≤ 800) {b0 : PBuf}
+    {sizeMeta : Nat} (hg : growthOk sizeMeta = true) {b0 : PBuf}
     (hb0 : mkFifoBuf sizeMeta = some b0) (script : List Bytes)
     (hdom : Spec.Dom05 (markerOf readRc) script.flatten = true) :
     Spec.c06Ok (Spec.recPrefix labels optK targets host) script.flatten
       ((runStream fifoOps ⟨labels, keepDomain optK targets, false, false, false⟩ host t0host strm readRc b0 script).ems.map
         Em.bytes) = true := by
   have h := records_atomic_partial ⟨labels, keepDomain optK targets, false, false, false⟩ rfl host t0host strm readRc
-    hm1 hm2 hb0 script hdom
+    hg hb0 script hdom
   simp only [pfx] at h
   rw [label_correct labels optK targets host hn ht] at h
   exact h
@@ -166,7 +165,7 @@ theorem records_carry_own_label (labels optK : Bool) (targets : List Bytes) (hos
     last.  With one stdio call = one atomic write, the output of every schedule therefore is a
     concatenation of whole records, no byte of one host's record inside another's. -/
 theorem records_atomic_any_schedule (cfg : Cfg) (hfix : cfg.tailSplit = false) (names : Nat → Bytes)
-    {sizeMeta : Nat} (hm1 : 1 ≤ sizeMeta) (hm2 : sizeMeta ≤ 800) {b0 : PBuf}
+    {sizeMeta : Nat} (hg : growthOk sizeMeta = true) {b0 : PBuf}
     (hb0 : mkFifoBuf sizeMeta = some b0) (evs : List (Key × LEv)) :
     LogOk (evs.foldl (gstep fifoOps cfg names) (ginit b0)) ∧
     ∀ (k : Key) (script : List Bytes),
@@ -177,24 +176,24 @@ theorem records_atomic_any_schedule (cfg : Cfg) (hfix : cfg.tailSplit = false) (
   refine ⟨log_is_shuffle fifoOps cfg names evs (ginit b0) (by intro k; simp [logOf, ginit]), ?_⟩
   intro k script hk hdom
   rw [global_stream_is_runStream fifoOps cfg names b0 evs k script hk]
-  exact records_atomic_partial cfg hfix (names k.1) (names 0) (strmNo k) (!k.2) hm1 hm2 hb0 script hdom
+  exact records_atomic_partial cfg hfix (names k.1) (names 0) (strmNo k) (!k.2) hg hb0 script hdom
 
 /-- the same for the INDEX-LEVEL relay (the instance run against the real cbuf.c),
     unconditionally: it simulates the FIFO+policy instance (`Relay.idx_sim`) -/
 theorem records_atomic_partial_index (cfg : Cfg) (hfix : cfg.tailSplit = false) (host t0host : Bytes)
-    (strm : Nat) (readRc : Bool) {sizeMeta : Nat} (hm1 : 1 ≤ sizeMeta) (hm2 : sizeMeta ≤ 800)
+    (strm : Nat) (readRc : Bool) {sizeMeta : Nat} (hg : growthOk sizeMeta = true)
     {a0 : Cbuf.Cbuf} (ha0 : mkIndexBuf sizeMeta = some a0) (script : List Bytes)
     (hdom : Spec.Dom05 (markerOf readRc) script.flatten = true) :
     Spec.c06Ok (pfx cfg host) script.flatten
       ((runStream indexOps cfg host t0host strm readRc a0 script).ems.map Em.bytes) = true := by
   obtain ⟨b0, hb0⟩ := mkFifoBuf_some sizeMeta
-  rw [(runStream_index_eq_fifo cfg host t0host strm readRc (by omega) ha0 hb0 script).1]
-  exact records_atomic_partial cfg hfix host t0host strm readRc hm1 hm2 hb0 script hdom
+  rw [(runStream_index_eq_fifo cfg host t0host strm readRc (growthOk_pos hg) ha0 hb0 script).1]
+  exact records_atomic_partial cfg hfix host t0host strm readRc hg hb0 script hdom
 
 /-- index-level relay, many hosts, every schedule: the global sequence of stdio calls is a
     shuffle of the per-stream sequences, each consisting of whole records of its host -/
 theorem records_atomic_index_any_schedule (cfg : Cfg) (hfix : cfg.tailSplit = false) (names : Nat → Bytes)
-    {sizeMeta : Nat} (hm1 : 1 ≤ sizeMeta) (hm2 : sizeMeta ≤ 800) {a0 : Cbuf.Cbuf}
+    {sizeMeta : Nat} (hg : growthOk sizeMeta = true) {a0 : Cbuf.Cbuf}
     (ha0 : mkIndexBuf sizeMeta = some a0) (evs : List (Key × LEv)) :
     LogOk (evs.foldl (gstep indexOps cfg names) (ginit a0)) ∧
     ∀ (k : Key) (script : List Bytes),
@@ -205,7 +204,7 @@ theorem records_atomic_index_any_schedule (cfg : Cfg) (hfix : cfg.tailSplit = fa
   refine ⟨log_is_shuffle indexOps cfg names evs (ginit a0) (by intro k; simp [logOf, ginit]), ?_⟩
   intro k script hk hdom
   rw [global_stream_is_runStream indexOps cfg names a0 evs k script hk]
-  exact records_atomic_partial_index cfg hfix (names k.1) (names 0) (strmNo k) (!k.2) hm1 hm2 ha0 script hdom
+  exact records_atomic_partial_index cfg hfix (names k.1) (names 0) (strmNo k) (!k.2) hg ha0 script hdom
 
 /-- C06 IN THE PROPERTY'S OWN TERMS, TOP LEVEL: a run of pdsh on the target list `targets` with
     options -N / -K as given (`labels`, `optK`), the domain flag computed as dsh() does, index-level
@@ -216,7 +215,7 @@ theorem records_atomic_index_any_schedule (cfg : Cfg) (hfix : cfg.tailSplit = fa
     `targets[i]` (own name; shortened at the first dot only if it does not start with a digit, no
     -K, and the targets do not span domains).  (`rs`, `re`: the two C08 switches, irrelevant here.) -/
 theorem records_own_label_any_schedule (labels optK rs re : Bool) (targets : List Bytes)
-    (hn : ∀ t ∈ targets, NameOk t) {sizeMeta : Nat} (hm1 : 1 ≤ sizeMeta) (hm2 : sizeMeta ≤ 800)
+    (hn : ∀ t ∈ targets, NameOk t) {sizeMeta : Nat} (hg : growthOk sizeMeta = true)
     {a0 : Cbuf.Cbuf} (ha0 : mkIndexBuf sizeMeta = some a0) (evs : List (Key × LEv)) :
     LogOk (evs.foldl (gstep indexOps ⟨labels, keepDomain optK targets, false, rs, re⟩
       (fun i => targets.getD i [])) (ginit a0)) ∧
@@ -227,7 +226,7 @@ theorem records_own_label_any_schedule (labels optK rs re : Bool) (targets : Lis
         ((logOf (evs.foldl (gstep indexOps ⟨labels, keepDomain optK targets, false, rs, re⟩
           (fun i => targets.getD i [])) (ginit a0)) k).map Em.bytes) = true := by
   obtain ⟨h1, h2⟩ := records_atomic_index_any_schedule ⟨labels, keepDomain optK targets, false, rs, re⟩ rfl
-    (fun i => targets.getD i []) hm1 hm2 ha0 evs
+    (fun i => targets.getD i []) hg ha0 evs
   refine ⟨h1, ?_⟩
   intro k script hk hfeed hdom
   have hmem : targets.getD k.1 [] ∈ targets := by
